@@ -273,6 +273,13 @@ def run(ctx: Ctx) -> int:
                 bad_r = r
     ctx.oblige("C20.h", ok, bad_r or rtd, "RegisteredType.deserializer re-raises every declared deserializer exception as ValueError" if ok else "RegisteredType.deserializer re-raises something other than a ValueError: a TypeError from the base deserializer (text the loader read as null / list / dict) skips the retry with the original string, so valid values such as the string 'null' are rejected", fn=rtd, construct="wrapper raises ValueError")
 
+    # "already of the registered type" is decided by the type check alone: None (what the loader makes of the text
+    # `null` / `~`) is not a value of any registered type, so that the retry with the original string happens
+    ivt = ctx.func("typing:RegisteredType.is_value_of_type")
+    rets_ = [r for r in walk_local(ivt) if isinstance(r, ast.Return)]
+    ok = len(rets_) == 1 and isinstance(rets_[0].value, ast.Call) and isinstance(rets_[0].value.func, ast.Attribute) and rets_[0].value.func.attr == "type_check" and not [n_ for n_ in walk_local(ivt) if isinstance(n_, (ast.If, ast.BoolOp, ast.IfExp))]
+    ctx.oblige("C20.h", ok, rets_[0] if rets_ else ivt, "is_value_of_type is the registered type check, nothing else" if ok else "is_value_of_type accepts values the type check does not (a None / other shortcut): text that the loader pre-reads as null counts as already converted, no error is raised, the retry with the original string never happens - `--n=null` gives None for a PositiveInt, the bytes value whose base64 text is 'null' parses back as None", fn=ivt, construct="is_value_of_type is the type check")
+
     # (iii) language agreement: range
     rs, rd = ctx.func("typing:range_serializer"), ctx.func("typing:range_deserializer")
     ctx.expect_locals(rd, ["value", "match"])
